@@ -307,6 +307,15 @@ fn public_switches_part(ctx: &mut Ctx, rng: &mut Rng) {
             if on != intact {
                 ctx.rep.violation("oracle", &format!("public-switches/ignored-checksums-not-inert/{}", what), &format!("Decoder::ignore_checksums(true): a file whose only faults are checksum fields ({}) does not decode to the result of the intact file: `{}` vs `{}`", what, crate::util::shorten(&on, 300, 100), crate::util::shorten(&intact, 300, 100)), pcase(file, &alt, what, 0, &IGNORE_ON));
             }
+            // switched off AFTER read_header_info (IHDR itself intact): still inert for everything read afterwards
+            let ihdr_crc_intact = chunks.first().map(|c| alt[c.start + 8 + c.len..c.start + 12 + c.len] == file[c.start + 8 + c.len..c.start + 12 + c.len]).unwrap_or(false);
+            if ihdr_crc_intact {
+                ctx.rep.count("public switches", &format!("{}, ignore_checksums(true) after read_header_info", what));
+                let late = crate::props::c04::run_reader_route3(&alt, &[], &IGNORE_ON, ident, 2);
+                if late != intact {
+                    ctx.rep.violation("oracle", &format!("public-switches/late-switch-not-inert/{}", what), &format!("Decoder::read_header_info() then ignore_checksums(true): a file whose only faults are checksum fields behind IHDR ({}) does not decode to the result of the intact file: `{}` vs `{}`", what, crate::util::shorten(&late, 300, 100), crate::util::shorten(&intact, 300, 100)), pcase(file, &alt, what, 0, &IGNORE_ON));
+                }
+            }
             // switched on: refused in time
             let off = run_reader_route(&alt, &[], &IGNORE_OFF, ident, true);
             if off.starts_with("PANIC") {
